@@ -85,3 +85,27 @@ def _owner_ok(f, pl, proj, owner_head):
     if rest and rest[0] == proj:
         return f.locals[pl[0]].get('head') == owner_head
     return True
+
+
+def lifted_args(prog, slicer, call, crate=None, depth=3, stop_at=()):
+    """argument values of a call site, lifted out of private helpers: while the values still mention parameters
+    of the function containing the call, they are re-expressed at each workspace call site of that function
+    (`persist(result, ..)` extracted from two callers gives two rows, one per caller).
+    Returns [(top Fn, top call site, [values])]."""
+    from .value import walk, subst
+    callers = prog.callers()
+
+    def go(f, site, vals, d):
+        has_param = any(x[0] == 'param' and x[1] == f.path for v in vals for x in walk(v))
+        css = [cs for cs in callers.get(f.path, []) if not cs.indirect and cs.name == f.path and cs.fn.path != f.path
+               and (crate is None or cs.fn.crate == crate)]
+        if not has_param or not css or d >= depth or f.vis == 'public' or f.path in stop_at:
+            return [(f, site, vals)]
+        out = []
+        for cs in css:
+            g = cs.fn
+            m = {(f.path, i): slicer.operand(g, a) for i, a in enumerate(cs.args)}
+            out.extend(go(g, cs, [subst(v, m, slicer) for v in vals], d + 1))
+        return out
+    f = call.fn
+    return go(f, call, [slicer.operand(f, a) for a in call.args], 0)
